@@ -165,12 +165,23 @@ CHECKS["C15"] = ("other",
 
 CHECKS["C04"] = ("other",
     "NOT verdict equality under arbitrary permutation/duplication (behavioural). Decided necessary conditions: every aggregation "
-    "site computes a function of the SET of child outcomes and walks its sibling loop to exhaustion on every Ok return (no early "
-    "break after a FAIL/PASS sibling), the rule lookup table is built from all definitions (entry+push, no overwrite) with no "
+    "site computes a function of the SET of child outcomes, the loop over the rules of a file is walked to exhaustion on every Ok "
+    "return (no rule left unevaluated because of its position), the rule lookup table is built from all definitions (entry+push, no overwrite) with no "
     "evaluation reachable while it is built, each memo write stores the value that is returned under the requested name after "
     "its computation completed, and the one accumulating memo write (key capture) is idempotent: the push happens only where a "
     "reflexive membership test over the same slot found no equal element (this was a genuine defect, repaired).",
     TB % "c04", "loop-exhaustion and memo-write typestate via abstract interpretation of MIR; who-may-write enumeration over resolved MIR places", "DESIGN.md §5 C04")
+
+CHECKS["C19"] = ("other",
+    "NOT the generate -> parse -> validate round trip (behavioural). Decided necessary conditions in commands/rulegen.rs: the "
+    "generated text reaches the output only in the Ok arm of the parser self-check on that same text and the Err arm only reports; "
+    "the emitted lines have the token shape `let V = Resources.*[ Type == 'T' ]` / `rule R when %V !empty {` / "
+    "`%V.Properties.P == <first value>` only where the value set can hold exactly one value, otherwise `IN [<all values joined>]`, "
+    "with the same V, the map key as T and the property key as P (format arguments resolved to their sources, templates decoded "
+    "from the compiled format_args constants); in gen_rules every path past the type lookup records the value under (type, "
+    "property), the recorded string is reached from the property value only through operations that are the identity on the "
+    "property's domain (a trim on that path was a genuine defect, repaired), and quotes are added exactly on the is_string branch.",
+    TB % "c19", "abstract interpretation of MIR with symbolic format arguments; backward data slice with an operation allowlist", "DESIGN.md §5 C19")
 
 NOT_APPLICABLE = {
 }
